@@ -662,6 +662,15 @@ func MakeInterest(f []string) (string, *Built) {
 		cfg.HopLimit = utils.IdPtr(uint(common.Atou(f[7])))
 	}
 	ap := ParseBufs(f[8])
+	// when a delegation of the forwarding hint extends the Interest name, the application holds ONE name:
+	// the Interest name is a prefix slice of the delegation's own array (same field values as separately
+	// built names - what MakeInterest does to its arguments' memory must not show in the packet)
+	for _, h := range cfg.ForwardingHint {
+		if len(h) > len(name) && name.IsPrefix(h) {
+			name = h[:len(name)]
+			break
+		}
+	}
 	var rec *RecSigner
 	var signer ndn.Signer
 	if s := signerFor(f[9]); s != nil {
